@@ -138,7 +138,7 @@ impl Monitor for C14 {
         "programs from the label-stress profile (1-5 call sites per function, inline inside inline, loops / switch / goto / early returns in bodies, \
          return values used inside larger expressions) and from the random pool; the version with no inline keyword is compiled and run from 5 input \
          vectors (defined behaviour checked by the reference interpreter), then every non-empty subset of up to 4 eligible functions is marked inline \
-         and co-executed: all globals, X and Y must be equal. Subsets the compiler refuses are counted. non-trivial = at least one expansion \
+         and co-executed: all globals, X and Y must be equal. Subsets the compiler refuses are counted. A third of the label-stress programs have a register context (X / Y loaded with a constant before the call, stepped and tested by the body), a third an accumulator context (the caller compares a variable, the body copies and tests it). non-trivial = at least one expansion \
          (.endofinline label) was present in a compared variant"
             .into()
     }
